@@ -6,12 +6,34 @@ designs versus the independent occurrence enumeration oracles.Occ.
   C11.occurrences   occurrences of a given element (same kind)                                   site: query(element kind)
   C11.assoc         containment queries across kinds (items inside all occurrences of a definition/instance/library; bundle<->member;
                     enclosing instance)                                                          site: query(rootkind[,recursive])
+  C11.roots         a single root of any kind (pool of <= ~45 roots per design), every query the property gives a meaning to, recursive
+                    on AND off (occurrence / containment / enclosing-instance answers do not depend on the flag)   site: query(rootkind,recursive=..)
+  C11.mixed         a COLLECTION of 2-4 roots of mixed kinds (netlist / hierarchical instance together with library / definition /
+                    instance / element / hierarchical element roots, overlapping and disjoint, a root possibly listed twice):
+                    the answer is the union of the answers for the single roots, each occurrence once
+                                                                                                 site: query([root classes],recursive=..)
   C11.dup           a result lists the same path twice                                           site: as above
   C11.valid         a returned reference reports is_valid False                                  site: item kind
   C11.name          HRef.name != slash-joined instance names below the top + item name + [index] site: item kind
   C11.canonical     two references to one path are different objects / unequal / unequal hash    site: how obtained
   C11.is_valid      is_valid after an edit disagrees with the current netlist                    site: item kind : expected value
   C11.is_unique     is_unique disagrees with "valid and the only occurrence of its item"         site: item kind : expected value
+  C11.enum-after-edit  the queries asked again in the state an edit leaves behind (netlist / library / definition / instance / port /
+                    cable / pin / wire roots, hierarchical-instance roots built BEFORE the edit; degenerate roots are labelled:
+                    instance-without-reference, cable-without-wires, port-without-pins, href-instance-stale) versus the occurrence
+                    enumeration of the current netlist              site: query(rootkind,recursive=..):top-valid|top-invalid|top-none
+
+Edits (EDIT_SEQS) are short sequences; the references built before the first step AND references built from the oracle's paths
+after every step are re-examined after every step.  Besides edits below the top (remove child / cable / wire / port / pin,
+dereference, add instance, move child) the alphabet has the edits ABOVE the root of a path and their undo: the library or the
+definition that holds the design leaves the netlist (single and bulk removal) and comes back (same place / another library / another
+netlist), the top instance loses / regains / changes its reference, the top instance is replaced through the property setter and
+through set_top_instance (fresh instance, child instance, definition) and put back.
+
+Validity oracle (path_status): a path is in the current netlist iff its root IS the top instance of a netlist whose libraries
+contain (found by walking netlist -> libraries -> definitions, never upwards) the definition the root references, and every
+further element is contained in the definition referenced by the instance before it.  Paths that run through an instance whose
+definition is outside that netlist (cross-netlist reference below the top) are not judged (stat 'ambiguous_paths').
 """
 import random
 import spydrnet as sdn
@@ -65,7 +87,140 @@ def all_paths(occ):
     return {'instance': occ.inst, 'port': occ.ports, 'pin': occ.pins, 'cable': occ.cables, 'wire': occ.wires}
 
 
-def enumeration_case(ad, f, r):
+ROOT_CLASS = {'netlist': 'within', 'href-instance': 'within', 'library': 'container', 'definition': 'container', 'instance': 'container',
+              'port': 'element', 'inner-pin': 'element', 'outer-pin': 'element', 'cable': 'element', 'wire': 'element',
+              'href-port': 'href-element', 'href-pin': 'href-element', 'href-cable': 'href-element', 'href-wire': 'href-element'}
+
+
+def single_expected(occ, kind, x, q, rec):
+    """The occurrences query q answers for ONE root of the given kind (x: the element, or the path for hierarchical roots).
+    None where the property text gives the combination no meaning (those are cross-hierarchy tracing, C12)."""
+    if kind == 'netlist':
+        return expected_within(occ, (occ.top,), q, rec) if occ.top is not None else []
+    if kind == 'href-instance':
+        return expected_within(occ, x, q, rec)
+    if kind in ('library', 'definition', 'instance'):
+        if kind == 'library':
+            paths = [p for p in occ.inst if any(p[-1].reference is d for d in x.definitions)]
+        elif kind == 'definition':
+            paths = [p for p in occ.inst if p[-1].reference is x]
+        else:
+            paths = [p for p in occ.inst if p[-1] is x]
+        if q == 'hinstances':
+            return paths
+        out = []
+        for p in paths:
+            out += expected_within(occ, p, q, rec)
+        return _dedupe(out)
+    if kind == 'port':
+        return {'hports': [p for p in occ.ports if p[-1] is x], 'hpins': [p for p in occ.pins if p[-2] is x],
+                'hinstances': [p for p in occ.inst if p[-1].reference is x.definition]}.get(q)
+    if kind == 'inner-pin':
+        return {'hpins': [p for p in occ.pins if p[-1] is x], 'hports': [p for p in occ.ports if p[-1] is x.port],
+                'hinstances': [p for p in occ.inst if p[-1].reference is x.port.definition]}.get(q)
+    if kind == 'outer-pin':
+        return {'hpins': [p for p in occ.pins if p[-1] is x.inner_pin and p[-3] is x.instance],
+                'hinstances': [p for p in occ.inst if p[-1] is x.instance]}.get(q)
+    if kind == 'cable':
+        return {'hcables': [p for p in occ.cables if p[-1] is x], 'hwires': [p for p in occ.wires if p[-2] is x],
+                'hinstances': [p for p in occ.inst if p[-1].reference is x.definition]}.get(q)
+    if kind == 'wire':
+        return {'hwires': [p for p in occ.wires if p[-1] is x], 'hcables': [p for p in occ.cables if p[-1] is x.cable],
+                'hinstances': [p for p in occ.inst if p[-1].reference is x.cable.definition]}.get(q)
+    if kind == 'href-port':
+        return {'hports': [x], 'hpins': [p for p in occ.pins if ids(p[:-1]) == ids(x)], 'hinstances': [x[:-1]]}.get(q)
+    if kind == 'href-pin':
+        return {'hpins': [x], 'hports': [x[:-1]], 'hinstances': [x[:-2]]}.get(q)
+    if kind == 'href-cable':
+        return {'hcables': [x], 'hwires': [p for p in occ.wires if ids(p[:-1]) == ids(x)], 'hinstances': [x[:-1]]}.get(q)
+    if kind == 'href-wire':
+        return {'hwires': [x], 'hcables': [x[:-1]], 'hinstances': [x[:-2]]}.get(q)
+    return None
+
+
+def root_pool(n, occ, r, keep):
+    """Single roots of every kind: [(kind, object handed to the query, oracle key)]. Deterministic given r."""
+    defs = [d for l in n.libraries for d in l.definitions]
+
+    def pick(lst, k):
+        lst = list(lst)
+        r.shuffle(lst)
+        return lst[:k]
+
+    def href(s):
+        h = HRef.from_sequence(list(s))
+        keep.append(h)
+        return h
+    pool = [('netlist', n, None)]
+    pool += [('href-instance', href(p), p) for p in [occ.inst[0]] + pick(occ.inst[1:], 5)]
+    pool += [('library', l, l) for l in n.libraries]
+    pool += [('definition', d, d) for d in pick(defs, 5)]
+    pool += [('instance', i, i) for i in [n.top_instance] + pick([i for d in defs for i in d.children], 5)]
+    pool += [('port', x, x) for x in pick([p for d in defs for p in d.ports], 3)]
+    pool += [('inner-pin', x, x) for x in pick([q for d in defs for p in d.ports for q in p.pins], 3)]
+    pool += [('outer-pin', x, x) for x in pick([o for d in defs for i in d.children for o in i.pins], 3)]
+    pool += [('cable', x, x) for x in pick([c for d in defs for c in d.cables], 3)]
+    pool += [('wire', x, x) for x in pick([w for d in defs for c in d.cables for w in c.wires], 3)]
+    pool += [('href-port', href(s), s) for s in pick(occ.ports, 2)]
+    pool += [('href-pin', href(s), s) for s in pick(occ.pins, 2)]
+    pool += [('href-cable', href(s), s) for s in pick(occ.cables, 2)]
+    pool += [('href-wire', href(s), s) for s in pick(occ.wires, 2)]
+    return pool
+
+
+MIXED_PER_QUERY = 6     # collections per (query, recursive) and design
+
+
+def roots_case(n, occ, f, r, keep):
+    """Single roots of every kind with recursive on and off, then collections of roots of mixed kinds."""
+    pool = root_pool(n, occ, r, keep)
+    for q, fn in Q.items():
+        for rec in (False, True):
+            elig = []
+            for kind, obj, key in pool:
+                exp = single_expected(occ, kind, key, q, rec)
+                if exp is None:
+                    continue
+                elig.append((kind, obj, exp))
+                ask(f, 'C11.roots', 'get_%s(%s,recursive=%s)' % (q, kind, rec), lambda: fn(obj, recursive=rec), exp)
+            within = [e for e in elig if ROOT_CLASS[e[0]] == 'within']
+            direct = [e for e in elig if ROOT_CLASS[e[0]] == 'container']
+            for k in range(MIXED_PER_QUERY):
+                if k < 2 and within and direct:
+                    # one name-searched root together with one or two directly enumerated roots
+                    chosen = [r.choice(within)] + r.sample(direct, min(len(direct), 1 + k))
+                else:
+                    chosen = r.sample(elig, min(len(elig), r.randint(2, 4)))
+                if r.random() < 0.15:
+                    chosen.append(r.choice(chosen))          # the same root listed twice
+                r.shuffle(chosen)
+                if len(chosen) < 2:
+                    continue
+                union = _dedupe([s for e in chosen for s in e[2]])
+                sets = [set(ids(s) for s in e[2]) for e in chosen]
+                overlap = sum(len(x) for x in sets) > len(set().union(*sets))
+                f.stats['mixed_overlapping' if overlap else 'mixed_disjoint'] += 1
+                f.stats['mixed_collections'] += 1
+                kinds = [e[0] for e in chosen]
+                site = 'get_%s([%s],recursive=%s)' % (q, ','.join(sorted(set(ROOT_CLASS[k_] for k_ in kinds))), rec)
+                coll = [e[1] for e in chosen]
+                res = f.guarded('C11.raises', site, lambda: list(fn(list(coll) if k % 2 == 0 else tuple(coll), recursive=rec)), roots=kinds)
+                if res is None:
+                    continue
+                got = [oracles.href_seq(h) for h in res]
+                gi = [ids(s) for s in got]
+                ei = {ids(s): s for s in union}
+                f.check(len(gi) == len(set(gi)), 'C11.dup', site, 'roots %r: %d results, %d distinct paths, e.g. twice: %s' % (
+                    kinds, len(gi), len(set(gi)), next((show(s) for j, s in enumerate(got) if gi[j] in gi[:j]), '')), roots=kinds)
+                missing = [show(s) for k_, s in ei.items() if k_ not in set(gi)]
+                extra = [show(s) for k_, s in zip(gi, got) if k_ not in ei]
+                f.check(not missing and not extra, 'C11.mixed', site, 'roots %r: expected the union of the single-root answers (%d occurrences), got %d; '
+                        'missing %r extra %r' % (kinds, len(ei), len(set(gi)), missing[:3], extra[:3]), roots=kinds)
+                bad_v = [h for h in res if h.is_valid is not True]
+                f.check(not bad_v, 'C11.valid', 'mixed-roots', '%d references returned for roots %r report invalid' % (len(bad_v), kinds), roots=kinds)
+
+
+def enumeration_case(ad, f, r, r_roots=None):
     n = designs.build_api(ad)
     occ = oracles.Occ(n)
     top = (n.top_instance,)
@@ -156,6 +311,8 @@ def enumeration_case(ad, f, r):
         ask(f, 'C11.assoc', 'get_hcables(href-wire)', lambda: sdn.get_hcables(h), [s[:-1]])
         ask(f, 'C11.assoc', 'get_hwires(href-wire)', lambda: sdn.get_hwires(h), [s])
         ask(f, 'C11.assoc', 'get_hinstances(href-wire)', lambda: sdn.get_hinstances(h), [s[:-2]])
+    # ---- D2. every root kind with recursive on/off; collections of roots of mixed kinds
+    roots_case(n, occ, f, r_roots if r_roots is not None else random.Random(0), keep)
     # ---- E. validity and names of everything enumerated from the netlist
     everything = collect(n)
     for kind, hs in everything.items():
@@ -181,7 +338,7 @@ def enumeration_case(ad, f, r):
     allh = [h for hs in everything.values() for h in hs]
     f.check(len(set(id(h) for h in allh)) == len(set(ids(oracles.href_seq(h)) for h in allh)), 'C11.canonical', 'distinct-paths',
             'two different paths share one reference object')
-    uniq_check(f, 'no-edit', everything, oracles.Occ(n))
+    uniq_check(f, 'no-edit', everything, [n])
 
 
 def _dedupe(seqs):
@@ -204,24 +361,112 @@ def collect(n):
     return out
 
 
-def uniq_check(f, edit, held, occ_now):
-    """is_valid / is_unique of held references against the current netlist."""
-    paths = all_paths(occ_now)
+class Now:
+    """The current netlist(s) as the oracle sees them: occurrence paths found by walking downwards from each netlist's top instance,
+    judged by path_status. Reads .libraries .definitions .top_instance .reference .children .ports .pins .cables .wires only."""
+
+    def __init__(self, netlists):
+        self.netlists = list(netlists)
+        self.member = [set(id(d) for l in m.libraries for d in l.definitions) for m in self.netlists]
+        self.paths = {k: [] for k in ('instance', 'port', 'pin', 'cable', 'wire')}      # judged True
+        self.ambiguous = {k: [] for k in self.paths}                                      # not judged
+        seen = set()
+        for m in self.netlists:
+            occ = oracles.Occ(m)
+            for kind, ps in all_paths(occ).items():
+                for p in ps:
+                    if ids(p) in seen:
+                        continue
+                    seen.add(ids(p))
+                    st = self.status(p)
+                    if st is True:
+                        self.paths[kind].append(p)
+                    elif st is None:
+                        self.ambiguous[kind].append(p)
+
+    def status(self, s):
+        """True: the path is an occurrence of the current design; False: it is not; None: not judged (see module docstring)."""
+        root = s[0]
+        if not isinstance(root, Instance):
+            return False
+        d = root.reference
+        if d is None:
+            return False
+        home = [k for k, m in enumerate(self.netlists) if m.top_instance is root and id(d) in self.member[k]]
+        if not home:
+            return False
+        amb = False
+        cur = d
+        k = 1
+        while k < len(s):
+            x = s[k]
+            if cur is None:
+                return False
+            if isinstance(x, Instance):
+                if oracles.pos_of(list(cur.children), x) is None:
+                    return False
+                cur = x.reference
+                if cur is not None and not any(id(cur) in self.member[h] for h in home):
+                    amb = True
+                k += 1
+                continue
+            if isinstance(x, Port):
+                if oracles.pos_of(list(cur.ports), x) is None:
+                    return False
+                members = list(x.pins)
+            elif isinstance(x, Cable):
+                if oracles.pos_of(list(cur.cables), x) is None:
+                    return False
+                members = list(x.wires)
+            else:
+                return False
+            rest = s[k + 1:]
+            if len(rest) > 1 or (rest and oracles.pos_of(members, rest[0]) is None):
+                return False
+            break
+        return None if amb else True
+
+
+FRESH_PER_KIND = 25
+
+
+def uniq_check(f, edit, held, netlists, r=None):
+    """is_valid / is_unique of the held references against the current netlist(s). With r: references are also built (from_sequence)
+    for a sample of the paths the oracle finds now; they join held and must report valid."""
+    now = Now(netlists)
+    if r is not None:
+        for kind, ps in now.paths.items():
+            ps = list(ps)
+            r.shuffle(ps)
+            have = set(id(h) for h in held[kind])
+            for p in ps[:FRESH_PER_KIND]:
+                h = HRef.from_sequence(list(p))
+                if id(h) not in have:
+                    have.add(id(h))
+                    held[kind].append(h)
     for kind, hs in held.items():
-        now = set(ids(p) for p in paths[kind])
-        count = {}
-        for p in paths[kind]:
+        count, count_amb = {}, {}
+        for p in now.paths[kind]:
             count[id(p[-1])] = count.get(id(p[-1]), 0) + 1
+        for p in now.ambiguous[kind]:
+            count_amb[id(p[-1])] = count_amb.get(id(p[-1]), 0) + 1
+        judged = []
+        for h in hs:
+            s = oracles.href_seq(h)
+            v = now.status(s)
+            if v is None:
+                f.stats['ambiguous_paths'] += 1
+                continue
+            judged.append((h, s, v))
         for want in (True, False):
             bad = []
             n_eval = 0
-            for h in hs:
-                s = oracles.href_seq(h)
-                v = ids(s) in now
+            for h, s, v in judged:
                 if v != want:
                     continue
                 n_eval += 1
-                if h.is_valid is not v:
+                got = f.guarded('C11.raises', 'is_valid', lambda: h.is_valid, edit=edit)
+                if got is not v:
                     bad.append(s)
             if n_eval:
                 f.check(not bad, 'C11.is_valid', '%s:expected-%s' % (kind, want),
@@ -231,88 +476,314 @@ def uniq_check(f, edit, held, occ_now):
         for want in (True, False):
             bad = []
             n_eval = 0
-            for h in hs:
-                s = oracles.href_seq(h)
-                u = ids(s) in now and count.get(id(s[-1]), 0) == 1
+            for h, s, v in judged:
+                if v and count_amb.get(id(s[-1]), 0):
+                    continue                      # another occurrence of the item may or may not count
+                u = v and count.get(id(s[-1]), 0) == 1
                 if u != want:
                     continue
                 n_eval += 1
-                got = f.guarded('C11.raises', 'is_unique', lambda: h.is_unique)
+                got = f.guarded('C11.raises', 'is_unique', lambda: h.is_unique, edit=edit)
                 if got is not u:
-                    bad.append((s, count.get(id(s[-1]), 0)))
+                    bad.append((s, count.get(id(s[-1]), 0) if v else 0))
             if n_eval:
                 f.check(not bad, 'C11.is_unique', '%s:expected-%s' % (kind, want),
-                        'after %s: %d of %d references report is_unique=%s, e.g. %s whose item occurs %s time(s)' % (
-                            edit, len(bad), n_eval, not want, show(bad[0][0]) if bad else '', bad[0][1] if bad else ''),
+                        'after %s: %d of %d references report is_unique=%s, e.g. %s which %s' % (
+                            edit, len(bad), n_eval, not want, show(bad[0][0]) if bad else '',
+                            ('is a path of the netlist whose item occurs %s time(s)' % bad[0][1] if bad[0][1] else 'is not a path of the netlist') if bad else ''),
                         edit=edit)
 
 
+# one-step edits below the top (and the two property-setter edits of the top) ...
 EDITS = ('remove_child', 'remove_cable', 'remove_wire', 'remove_port', 'remove_pin', 'dereference', 'top_none', 'top_other', 'add_instance', 'move_child')
+# ... and sequences: edits above the root of every path, each followed by its undo
+EDIT_SEQS = tuple((e,) for e in EDITS) + (
+    ('remove_top_library', 'readd_library'),
+    ('remove_top_library_bulk', 'readd_library'),
+    ('remove_top_definition', 'readd_definition'),
+    ('remove_top_definition_bulk', 'readd_definition_other_library'),
+    ('top_dereference', 'top_rereference'),
+    ('top_repoint', 'top_rereference'),
+    ('set_top_instance_fresh', 'set_top_instance_back'),
+    ('set_top_instance_child', 'set_top_instance_back'),
+    ('set_top_instance_definition', 'set_top_instance_back'),
+    ('top_replace_fresh', 'top_replace_back'),
+    ('top_none', 'top_replace_back'),
+    ('remove_lower_library', 'readd_library'),
+    ('remove_lower_definition', 'readd_definition'),
+    ('library_to_other_netlist', 'other_netlist_top', 'library_back'),
+    ('add_empty_bundles',),
+    ('empty_a_cable',),
+)
 
 
-def edit_case(ad, f, r, edit):
+class NotApplicable(Exception):
+    pass
+
+
+def apply_edit(edit, n, r, ctx):
+    """One edit through the public API. ctx carries what a later undo step needs; ctx['netlists'] the netlists to judge against."""
+    occ0 = oracles.Occ(n)
+    reach_defs = [d[0] for d in _dedupe([(p[-1].reference,) for p in occ0.inst if p[-1].reference is not None])]
+    r.shuffle(reach_defs)
+    top = n.top_instance
+    topdef = top.reference if top is not None else None
+
+    def need(c):
+        if not c:
+            raise NotApplicable()
+
+    def first(pred):
+        for d in reach_defs:
+            x = pred(d)
+            if x:
+                return d, x
+        raise NotApplicable()
+    if edit == 'remove_child':
+        d, xs = first(lambda d: list(d.children))
+        d.remove_child(r.choice(xs))
+    elif edit == 'remove_cable':
+        d, xs = first(lambda d: list(d.cables))
+        d.remove_cable(r.choice(xs))
+    elif edit == 'remove_wire':
+        d, cs = first(lambda d: [c for c in d.cables if len(c.wires) > 0])
+        c = r.choice(cs)
+        c.remove_wire(r.choice(list(c.wires)))
+    elif edit == 'remove_port':
+        d, xs = first(lambda d: list(d.ports))
+        d.remove_port(r.choice(xs))
+    elif edit == 'remove_pin':
+        d, ps = first(lambda d: [p for p in d.ports if len(p.pins) > 1])
+        p = r.choice(ps)
+        p.remove_pin(r.choice(list(p.pins)))
+    elif edit == 'dereference':
+        d, xs = first(lambda d: list(d.children))
+        r.choice(xs).reference = None
+    elif edit == 'top_none':
+        ctx['old_top'] = top
+        n.top_instance = None
+    elif edit == 'top_other':
+        cands = [p[-1] for p in occ0.inst[1:]]
+        need(cands)
+        n.top_instance = r.choice(cands)
+    elif edit == 'add_instance':
+        d, targets = first(lambda d: [x for x in reach_defs if x is not d and not _reaches(x, d)])
+        d.create_child('c11_extra', reference=r.choice(targets))
+    elif edit == 'move_child':
+        def movable(d):
+            for i in r.sample(list(d.children), len(d.children)):
+                others = [x for x in reach_defs if x is not d and (i.reference is None or not _reaches(i.reference, x)) and x is not i.reference]
+                if others:
+                    return (i, others)
+            return None
+        d, (i, others) = first(movable)
+        d.remove_child(i)
+        i.name = 'c11_moved'
+        r.choice(others).add_child(i)
+    elif edit == 'add_empty_bundles':
+        need(reach_defs)
+        d = reach_defs[0]
+        d.create_cable(name='c11_empty_cable')
+        d.create_port(name='c11_empty_port')
+    elif edit == 'empty_a_cable':
+        d, cs = first(lambda d: [c for c in d.cables if len(c.wires) > 0])
+        c = r.choice(cs)
+        c.remove_wires_from(list(c.wires))
+    # ---- above the root: the library / definition that holds the design
+    elif edit in ('remove_top_library', 'remove_top_library_bulk', 'remove_lower_library', 'library_to_other_netlist'):
+        need(topdef is not None and topdef.library is not None)
+        if edit == 'remove_lower_library':
+            libs = [l for l in _dedupe([(d.library,) for d in reach_defs if d.library is not None and d.library is not topdef.library])]
+            need(libs)
+            lib = r.choice(libs)[0]
+        else:
+            lib = topdef.library
+        ctx['lib'], ctx['lib_pos'] = lib, oracles.pos_of(list(n.libraries), lib)
+        if edit == 'remove_top_library_bulk':
+            n.remove_libraries_from([lib])
+        else:
+            n.remove_library(lib)
+        if edit == 'library_to_other_netlist':
+            n2 = sdn.Netlist(name='c11_other_netlist')
+            n2.add_library(lib)
+            ctx['n2'] = n2
+            ctx['netlists'] = [n, n2]
+    elif edit == 'other_netlist_top':
+        ctx['n2'].top_instance = top
+    elif edit == 'library_back':
+        ctx['n2'].remove_library(ctx['lib'])
+        n.add_library(ctx['lib'], position=ctx['lib_pos'])
+    elif edit == 'readd_library':
+        n.add_library(ctx['lib'], position=ctx['lib_pos'])
+    elif edit in ('remove_top_definition', 'remove_top_definition_bulk', 'remove_lower_definition'):
+        need(topdef is not None and topdef.library is not None)
+        if edit == 'remove_lower_definition':
+            cands = [d for d in reach_defs if d is not topdef and d.library is not None]
+            need(cands)
+            d = r.choice(cands)
+        else:
+            d = topdef
+        lib = d.library
+        ctx['def'], ctx['def_lib'], ctx['def_pos'] = d, lib, oracles.pos_of(list(lib.definitions), d)
+        if edit == 'remove_top_definition_bulk':
+            lib.remove_definitions_from([d])
+        else:
+            lib.remove_definition(d)
+    elif edit == 'readd_definition':
+        ctx['def_lib'].add_definition(ctx['def'], position=ctx['def_pos'])
+    elif edit == 'readd_definition_other_library':
+        others = [l for l in n.libraries if l is not ctx['def_lib']]
+        need(others)
+        r.choice(others).add_definition(ctx['def'])
+    # ---- above the root: the top instance and its reference
+    elif edit == 'top_dereference':
+        need(topdef is not None)
+        ctx['old_topdef'] = topdef
+        top.reference = None
+    elif edit == 'top_repoint':
+        cands = [d for d in reach_defs if d is not topdef]
+        need(topdef is not None and cands)
+        ctx['old_topdef'] = topdef
+        _repoint(top, r.choice(cands))
+    elif edit == 'top_rereference':
+        _repoint(top, ctx['old_topdef'])
+    elif edit == 'set_top_instance_fresh':
+        need(topdef is not None)
+        ctx['old_top'] = top
+        other = sdn.Instance(name='c11_top2')
+        other.reference = topdef
+        n.set_top_instance(other)
+    elif edit == 'set_top_instance_child':
+        cands = [p[-1] for p in occ0.inst[1:]]
+        need(cands)
+        ctx['old_top'] = top
+        n.set_top_instance(r.choice(cands))
+    elif edit == 'set_top_instance_definition':
+        need(reach_defs)
+        ctx['old_top'] = top
+        n.set_top_instance(r.choice(reach_defs), instance_name='c11_top3')
+    elif edit == 'set_top_instance_back':
+        n.set_top_instance(ctx['old_top'])
+    elif edit == 'top_replace_fresh':
+        need(topdef is not None)
+        ctx['old_top'] = top
+        other = sdn.Instance(name='c11_top4')
+        other.reference = topdef
+        n.top_instance = other
+    elif edit == 'top_replace_back':
+        n.top_instance = ctx['old_top']
+    else:
+        raise KeyError(edit)
+
+
+def _repoint(inst, d):
+    """inst.reference = d; direct re-pointing is only supported between definitions of the same port shape, otherwise through None"""
+    cur = inst.reference
+    if cur is not None and [len(p.pins) for p in cur.ports] != [len(p.pins) for p in d.ports]:
+        inst.reference = None
+    inst.reference = d
+
+
+class _NoDesign:
+    """what the occurrence oracle looks like when the netlist has no (valid) top: nothing occurs"""
+    top = None
+    inst, ports, pins, cables, wires = [], [], [], [], []
+
+    def below(self, path, recursive):
+        return []
+
+    def items_in(self, path, kind):
+        return []
+
+
+def queries_after(f, label, n, ctx, held_roots, r):
+    """The h-queries in the state an edit leaves behind: netlist, library, definition, instance, port, cable, pin, wire roots and the
+    hierarchical-instance roots built before the edit (recursive on/off) against the occurrence oracle of the CURRENT netlist: nothing
+    occurs when the netlist has no top instance or the top definition is outside the netlist, and a reference whose path is gone is the
+    root of nothing.  States with a second netlist or with unjudged (cross-netlist) paths are skipped."""
+    now = Now(ctx['netlists'])
+    if len(ctx['netlists']) > 1 or any(now.ambiguous[k] for k in now.ambiguous):
+        f.stats['queries_after_edit_skipped'] += 1
+        return
+    top = n.top_instance
+    rootok = top is not None and now.status((top,)) is True
+    occ = oracles.Occ(n) if rootok else _NoDesign()
+    state = 'top-valid' if rootok else 'top-none' if top is None else 'top-invalid'
+    f.stats['queries_after_edit:' + state] += 1
+    defs = [d for l in n.libraries for d in l.definitions]
+
+    def pick(lst, k, prefer=None):
+        lst = list(lst)
+        r.shuffle(lst)
+        if prefer is not None:
+            lst.sort(key=lambda x: 0 if prefer(x) else 1)      # stable: degenerate elements first
+        return lst[:k]
+    roots = [('netlist', n, None)]
+    roots += [('library', l, l) for l in pick(n.libraries, 2)]
+    roots += [('definition', d, d) for d in pick(defs, 3)]
+    roots += [('instance' if i.reference is not None else 'instance-without-reference', i, i)
+              for i in pick([i for d in defs for i in d.children], 3, lambda i: i.reference is None)]
+    roots += [('port' if len(x.pins) else 'port-without-pins', x, x) for x in pick([p for d in defs for p in d.ports], 2, lambda x: len(x.pins) == 0)]
+    roots += [('cable' if len(x.wires) else 'cable-without-wires', x, x) for x in pick([c for d in defs for c in d.cables], 2, lambda x: len(x.wires) == 0)]
+    roots += [('inner-pin', x, x) for x in pick([q for d in defs for p in d.ports for q in p.pins], 1)]
+    roots += [('wire', x, x) for x in pick([w for d in defs for c in d.cables for w in c.wires], 1)]
+    for h, s in held_roots:
+        roots.append(('href-instance' if now.status(s) is True else 'href-instance-stale', h, s))
+    for label_kind, obj, key in roots:
+        kind = label_kind.split('-with')[0].replace('-stale', '')
+        for q, fn in Q.items():
+            for rec in (False, True):
+                if label_kind == 'href-instance-stale' or (kind == 'href-instance' and not rootok):
+                    exp = []
+                else:
+                    exp = single_expected(occ, kind, key, q, rec)
+                if exp is None:
+                    continue
+                site = 'get_%s(%s,recursive=%s):%s' % (q, label_kind, rec, state)
+                res = f.guarded('C11.raises', site, lambda: list(fn(obj, recursive=rec)), edit=label)
+                if res is None:
+                    continue
+                got = [oracles.href_seq(h) for h in res]
+                gi = [ids(s) for s in got]
+                ei = {ids(s): s for s in exp}
+                f.check(len(gi) == len(set(gi)), 'C11.dup', site, 'after %s: %d results, %d distinct paths' % (label, len(gi), len(set(gi))), edit=label)
+                missing = [show(s) for k, s in ei.items() if k not in set(gi)]
+                extra = [show(s) for k, s in zip(gi, got) if k not in ei]
+                f.check(not missing and not extra, 'C11.enum-after-edit', site, 'after %s: expected %d occurrences, got %d; missing %r extra %r%s' % (
+                    label, len(ei), len(set(gi)), missing[:3], extra[:3],
+                    ' (returned references report is_valid=%s)' % sorted(set(h.is_valid for h, k in zip(res, gi) if k not in ei)) if extra else ''), edit=label)
+                bad_v = [h for h, k in zip(res, gi) if k in ei and h.is_valid is not True]
+                f.check(not bad_v, 'C11.valid', 'after-edit:' + q, 'after %s: %d returned references of existing paths report invalid' % (label, len(bad_v)), edit=label)
+
+
+HELD_ROOTS = 3
+
+
+def edit_case(ad, f, r, seq):
+    """Build, hold a reference to every occurrence, then apply the steps of seq; after every step every held reference (and a sample
+    of references freshly built for the paths that exist now) must agree with the oracle."""
     n = designs.build_api(ad)
     held = collect(n)
     occ0 = oracles.Occ(n)
-    reach_defs = _dedupe([(p[-1].reference,) for p in occ0.inst if p[-1].reference is not None])
-    reach_defs = [d[0] for d in reach_defs]
-    r.shuffle(reach_defs)
-    done = False
-    try:
-        if edit == 'remove_child':
-            for d in reach_defs:
-                if d.children:
-                    d.remove_child(r.choice(list(d.children))); done = True; break
-        elif edit == 'remove_cable':
-            for d in reach_defs:
-                if d.cables:
-                    d.remove_cable(r.choice(list(d.cables))); done = True; break
-        elif edit == 'remove_wire':
-            for d in reach_defs:
-                cs = [c for c in d.cables if len(c.wires) > 0]
-                if cs:
-                    c = r.choice(cs); c.remove_wire(r.choice(list(c.wires))); done = True; break
-        elif edit == 'remove_port':
-            for d in reach_defs:
-                if d.ports:
-                    d.remove_port(r.choice(list(d.ports))); done = True; break
-        elif edit == 'remove_pin':
-            for d in reach_defs:
-                ps = [p for p in d.ports if len(p.pins) > 1]
-                if ps:
-                    p = r.choice(ps); p.remove_pin(r.choice(list(p.pins))); done = True; break
-        elif edit == 'dereference':
-            for d in reach_defs:
-                if d.children:
-                    r.choice(list(d.children)).reference = None; done = True; break
-        elif edit == 'top_none':
-            n.top_instance = None; done = True
-        elif edit == 'top_other':
-            cands = [p[-1] for p in occ0.inst[1:]]
-            if cands:
-                n.top_instance = r.choice(cands); done = True
-        elif edit == 'add_instance':
-            for d in reach_defs:
-                targets = [x for x in reach_defs if x is not d and not _reaches(x, d)]
-                if targets:
-                    d.create_child('c11_extra', reference=r.choice(targets)); done = True; break
-        elif edit == 'move_child':
-            for d in reach_defs:
-                if d.children:
-                    i = r.choice(list(d.children))
-                    others = [x for x in reach_defs if x is not d and (i.reference is None or not _reaches(i.reference, x)) and x is not i.reference]
-                    if others:
-                        d.remove_child(i)
-                        i.name = 'c11_moved'
-                        r.choice(others).add_child(i); done = True; break
-    except Exception as e:
-        f.stats['edit_refused'] += 1
-        return
-    if not done:
-        f.stats['edit_not_applicable'] += 1
-        return
-    f.stats['edits'] += 1
-    uniq_check(f, edit, held, oracles.Occ(n))
+    below = list(occ0.inst[1:])
+    r.shuffle(below)
+    held_roots = [(HRef.from_sequence(list(p)), p) for p in [occ0.inst[0]] + below[:HELD_ROOTS - 1]]
+    ctx = {'netlists': [n]}
+    label = ''
+    for step in seq:
+        label = (label + '+' + step) if label else step
+        try:
+            apply_edit(step, n, r, ctx)
+        except NotApplicable:
+            f.stats['edit_not_applicable'] += 1
+            return
+        except Exception as e:
+            f.stats['edit_refused'] += 1
+            f.stats['edit_refused:%s:%s' % (step, type(e).__name__)] += 1
+            return
+        f.stats['edits'] += 1
+        uniq_check(f, label, held, ctx['netlists'], r)
+        queries_after(f, label, n, ctx, held_roots, r)
 
 
 def _reaches(a, b):
@@ -332,12 +803,19 @@ def _reaches(a, b):
 def case(ad, f):
     seed = int(designs.ad_hash(ad), 16) % (2 ** 31)
     r = random.Random(seed)
-    enumeration_case(ad, f, r)
+    enumeration_case(ad, f, r, random.Random(seed + 7919))
     micro = 'micro' in (ad.get('meta') or {})
-    for e in EDITS:
-        if micro and e in ('top_other', 'move_child', 'remove_pin'):
+    for k, seq in enumerate(EDIT_SEQS):
+        if micro and seq[0] in ('top_other', 'move_child', 'remove_pin'):
             continue
-        edit_case(ad, f, random.Random(seed + 1 + EDITS.index(e)), e)
+        edit_case(ad, f, random.Random(seed + 1 + k), seq)
+    f.stats['note:roots: single roots of 14 kinds (netlist, hierarchical instance, library, definition, instance, port, inner pin, outer pin, '
+            'cable, wire, hierarchical port/pin/cable/wire), pool <= ~45 per design, recursive on and off; %d collections of 2-4 (+1 repeated) roots '
+            'of mixed kinds per query and flag, given as list or tuple' % MIXED_PER_QUERY] = 1
+    f.stats['note:edits: %d sequences per design (%s); held = every reference enumerated before the first step + <= %d per kind built from the '
+            'oracle paths after every step; after every step the five queries (recursive on/off) from the netlist, <= 2 libraries, <= 3 definitions, '
+            '<= 3 instances, <= 2 ports, <= 2 cables, 1 pin, 1 wire (degenerate ones first) and %d hierarchical-instance roots built before the edit'
+            % (len(EDIT_SEQS), '; '.join('+'.join(s) for s in EDIT_SEQS), FRESH_PER_KIND, HELD_ROOTS)] = 1
 
 
 def profile_for(seed):
